@@ -13,6 +13,7 @@ A rejected certificate is searched for a witness (a path avoiding a claimed domi
 variable, a missing/extra frontier block, a wrong producer/use) and reported as failing-input.
 """
 import hashlib
+import os
 import time
 import warnings
 
@@ -412,19 +413,19 @@ def eval_dom(samples, complete_cap):
                      f"[if cfg_check f {c['cout']} {c['cin']} R then 1%Z else 0%Z; if seteqN R {c['reach']} then 1%Z else 0%Z; "
                      f"if dom_check f R D then 1%Z else 0%Z; {comp}; if idom_check R D {c['I']} then 1%Z else 0%Z; "
                      f"if df_check f R D {c['DF']} then 1%Z else 0%Z]")
-    return coqrun.eval_zlists(IMPORTS, exprs, "c14d_dom", shard=max(1, min(60, (len(exprs) + 5) // 6)), timeout=1500) if exprs else []
+    return coqrun.eval_zlists(IMPORTS, exprs, f"c14d_dom_{os.getpid()}", shard=max(1, min(60, (len(exprs) + 5) // 6)), timeout=1500) if exprs else []
 
 
 def eval_ssa(samples):
     exprs = [f"let f : func := {s['func']} in let R := {s['R']} in let D := {s['D']} in "
              "[if dom_check f R D then 1%Z else 0%Z; if ssa_check f R D then 1%Z else 0%Z; if single_def_check f then 1%Z else 0%Z]"
              for s in samples]
-    return coqrun.eval_zlists(IMPORTS, exprs, "c14d_ssa", shard=max(1, min(60, (len(exprs) + 5) // 6)), timeout=1500) if exprs else []
+    return coqrun.eval_zlists(IMPORTS, exprs, f"c14d_ssa_{os.getpid()}", shard=max(1, min(60, (len(exprs) + 5) // 6)), timeout=1500) if exprs else []
 
 
 def eval_dfg(samples):
     exprs = [f"[if dfg_check {s['func']} {nlist(range(s['nvars']))} {s['outs']} {s['ins']} then 1%Z else 0%Z]" for s in samples]
-    return coqrun.eval_zlists(IMPORTS, exprs, "c14d_dfg", shard=max(1, min(60, (len(exprs) + 5) // 6)), timeout=1500) if exprs else []
+    return coqrun.eval_zlists(IMPORTS, exprs, f"c14d_dfg_{os.getpid()}", shard=max(1, min(60, (len(exprs) + 5) // 6)), timeout=1500) if exprs else []
 
 
 # ------------------------------------------------------------------ hand-written CFG shapes (always part of the run)
